@@ -220,6 +220,20 @@ class CStr(ModelObj):
 
     __hash__ = object.__hash__
 
+    def py_concretize(self, model):
+        def ev(x):
+            return x if _isint(x) else model.eval(V._z(x), model_completion=True).as_long()
+
+        n = ev(self.n)
+        saved, st = None, cur() if V._current else None
+        if st is not None:
+            saved, st.capture = st.capture, []  # evaluating at(j) may want to assume range facts: discard them here
+        try:
+            return "".join(chr(ev(self.at(j)) % MAX_CODE) for j in range(min(n, 12))) + ("..." if n > 12 else "")
+        finally:
+            if st is not None:
+                st.capture = saved
+
     def __repr__(self):
         return f"CStr(len={self.n!r})"
 
@@ -327,8 +341,31 @@ def fmt_int(st, v, spec):
     if k == 8:
         raise Unsupported("format of a modelled int with more than 8 digits")
     nd = max(k + 1, width)
-    digs = [(v // base ** (nd - 1 - j)) % base for j in range(nd)]
-    return CStr.codes([digit_char(d, base) for d in digs])
+    return CStr.codes([digit_char(d, base) for d in digits_of(st, v, base, nd)])
+
+
+def digits_of(st, v, base, nd):
+    """The nd base-`base` digits of v, most significant first, as fresh ints d_j DEFINED by
+    0 <= v < base**nd  ==>  0 <= d_j < base  and  sum d_j * base**(nd-1-j) == v
+    (positional notation: for v in that range such digits exist and are unique, d_j = (v // base**(nd-1-j)) % base;
+    the linear form is what the solver is good at).  One set of digit symbols per (v, base, nd) and path."""
+    if _isint(v):
+        return [(v // base ** (nd - 1 - j)) % base for j in range(nd)]
+    cache = st.ghost.setdefault("c18_digits", {})
+    key = (V._z(v).get_id(), base, nd)
+    if key not in cache:
+        ds = [st.fresh_int(f"digit{j}") for j in range(nd)]
+        total = 0
+        for d in ds:
+            total = total * base + d
+        fact = implies(both(v >= 0, v < base**nd), both(total == v, *[both(0 <= d, d < base) for d in ds]))
+        saved, st.capture = st.capture, None
+        try:
+            st.assume(fact)
+        finally:
+            st.capture = saved
+        cache[key] = (ds, V._z(v))  # keep the term alive: ids are only unique among live terms
+    return cache[key][0]
 
 
 def digit_char(d, base=16):
@@ -537,6 +574,14 @@ def nearest(value_at, size, v, idx):
                 implies(idx < size - 1, 2 * v < value_at(idx) + value_at(idx + 1)))
 
 
+def _int_arg(x):
+    """An int argument at a call site: None there is the TypeError CPython raises on `0 <= None`."""
+    x = cur().force(x)
+    if x is None:
+        raise PyRaise(SExc(TypeError, ("'<=' not supported between instances of 'int' and 'NoneType'",), site="builtin"))
+    return x
+
+
 def desc_spec_clauses(p, num, result):
     """What _color_desc_<p>(num) is, region by region (shared by the 256- and 88-colour describers)."""
     r, g, b = cube_coords(p, num)
@@ -553,7 +598,7 @@ class color_desc_256:
     params = dict(num=Int)
     result = Str(4)
     raises = (ValueError,)
-    raises_iff = {ValueError: lambda a: neg(both(0 <= a.num, a.num < 256))}
+    raises_iff = {ValueError: lambda a: neg(both(0 <= _int_arg(a.num), _int_arg(a.num) < 256))}
     setup = staticmethod(tables_setup)
     fstring = staticmethod(cstr_fstring)
 
@@ -564,7 +609,7 @@ class color_desc_256:
             yield "the-description-parses-back-to-the-number", opt_eq(back, a.num)
 
     def ensures_callee(a, result):
-        yield from desc_spec_clauses(P256, a.num, result)
+        yield from desc_spec_clauses(P256, _int_arg(a.num), result)
 
     def on_raise(a, exc):
         yield "raises-only-outside-the-palette", neg(both(0 <= a.num, a.num < 256))
@@ -575,7 +620,7 @@ class color_desc_88:
     params = dict(num=Int)
     result = Str(4)
     raises = (ValueError,)
-    raises_iff = {ValueError: lambda a: neg(both(0 <= a.num, a.num < 88))}
+    raises_iff = {ValueError: lambda a: neg(both(0 <= _int_arg(a.num), _int_arg(a.num) < 88))}
     setup = staticmethod(tables_setup)
     fstring = staticmethod(cstr_fstring)
 
@@ -585,7 +630,7 @@ class color_desc_88:
         yield "the-description-parses-back-to-the-number", opt_eq(back, a.num)
 
     def ensures_callee(a, result):
-        yield from desc_spec_clauses(P88, a.num, result)
+        yield from desc_spec_clauses(P88, _int_arg(a.num), result)
 
     def on_raise(a, exc):
         yield "raises-only-outside-the-palette", neg(both(0 <= a.num, a.num < 88))
@@ -637,7 +682,15 @@ def parse_spec_clauses(p, s, result):
     none, rv = opt_parts(result)
     c0 = cs_at(s, 0)
     yield "a-colour-number-of-the-palette-or-none", either(none, both(0 <= rv, rv < p.colours))
-    yield "longer-than-four-characters-is-rejected", implies(n > 4, none)
+    if p is P88:
+        # 88 colours only: '#rrggbb' is read as '#rgb' with the HIGH digit of each component
+        six = [cs_at(s, i) for i in range(1, 7)]
+        rrggbb = both(n == 7, c0 == HASH, *[is_hex(x) for x in six])
+        hi = [T(p.lookup16, digit_val(x, 16)) for x in (six[0], six[2], six[4])]
+        yield "hash-rrggbb-is-the-cube-colour-of-the-three-high-digits", implies(rrggbb, both(neg(none), rv == cube_number(p, *hi)))
+        yield "longer-than-four-characters-is-rejected", implies(both(n > 4, neg(rrggbb)), none)
+    else:
+        yield "longer-than-four-characters-is-rejected", implies(n > 4, none)
     yield "other-first-characters-are-rejected", implies(both(n <= 4, either(n == 0, both(c0 != H, c0 != HASH, c0 != G))), none)
     # 'hN'
     hwf, hv = digits_at(s, 1, 10, 3)
@@ -672,3 +725,141 @@ class parse_color_256:
 
     def ensures(a, result):
         yield from parse_spec_clauses(P256, a.desc, result)
+
+
+@contract(DC + "_parse_color_88", property="C18", replayable=False)
+class parse_color_88:
+    params = dict(desc=Str())
+    result = Opt(Int)
+    raises = ()
+    setup = staticmethod(tables_setup)
+
+    def ensures(a, result):
+        yield from parse_spec_clauses(P88, a.desc, result)
+
+
+def cstr_call_real(ip, st, f, args, kwargs):
+    """Builtins applied to modelled values: format(int, spec), "".join(strs), list.index(str), hash((cls, int))."""
+    owner = getattr(f, "__self__", None)
+    name = getattr(f, "__name__", "")
+    if f is format and len(args) == 2 and isinstance(args[1], str) and isinstance(args[0], SInt):
+        return fmt_int(st, args[0], args[1])
+    if name == "join" and owner == "" and len(args) == 1:
+        items = args[0].seq if isinstance(args[0], Q.LRef) else args[0]
+        if isinstance(items, tuple) and all(isinstance(x, (str, CStr)) for x in items):
+            out = CStr.of("")
+            for x in items:
+                out = cs_concat(out, CStr.of(x))
+            return out
+    if name == "index" and isinstance(owner, (list, tuple)) and len(args) == 1 and isinstance(args[0], CStr) and all(isinstance(x, str) for x in owner):
+        # first position whose item equals the str; ValueError when there is none
+        conds, none_before = [], True
+        for item in owner:
+            e = args[0] == item
+            conds.append(both(none_before, e))
+            none_before = both(none_before, neg(e))
+        j = st.choose(conds + [none_before])
+        if j == len(owner):
+            raise PyRaise(SExc(ValueError, ("x not in list",), site="builtin"))
+        return j
+    if f is hash and len(args) == 1 and isinstance(args[0], tuple) and len(args[0]) == 2 and isinstance(args[0][0], type):
+        # hash of a (class, int) pair: some function of the pair (all that is known of hash())
+        return mk_int(HASH_PAIR(z3.IntVal(V.atom_code("class:" + args[0][0].__qualname__)), V._z(args[0][1])))
+    return NotImplemented
+
+
+HASH_PAIR = z3.Function("hash$class-int-pair", z3.IntSort(), z3.IntSort(), z3.IntSort())
+
+
+def hex6(num):
+    return CStr.codes([HASH] + [digit_char(d) for d in digits_of(cur(), num, 16, 6)])
+
+
+@contract(DC + "_color_desc_true", property="C18", replayable=False)
+class color_desc_true:
+    params = dict(num=Int)
+    result = Str(7)
+    raises = ()
+    fstring = staticmethod(cstr_fstring)
+    setup = staticmethod(tables_setup)
+
+    def requires(a):
+        return both(0 <= a.num, a.num < 2**24)
+
+    def ensures(a, result):
+        yield "hash-and-six-lower-case-hex-digits-most-significant-first", cs_eq(result, hex6(a.num))
+        back = parse_color_true.spec_value(None, desc=result)
+        yield "the-description-parses-back-to-the-number", opt_eq(back, a.num)
+
+    def ensures_callee(a, result):
+        yield "hash-and-six-lower-case-hex-digits-most-significant-first", cs_eq(result, hex6(a.num))
+
+
+def pack_rgb(t):
+    return t[0] * 65536 + t[1] * 256 + t[2]
+
+
+def parse_true_clauses(s, result):
+    p = P256
+    n = cs_len(s)
+    none, rv = opt_parts(result)
+    c0 = cs_at(s, 0)
+    rgb = lambda c: pack_rgb(T(p.values, c))  # noqa: E731
+    yield "a-24-bit-colour-or-none", either(none, both(0 <= rv, rv < 2**24))
+    yield "other-first-characters-are-rejected", implies(either(n == 0, both(c0 != H, c0 != HASH, c0 != G)), none)
+    six = [cs_at(s, i) for i in range(1, 7)]
+    rrggbb = both(n == 7, c0 == HASH, *[is_hex(x) for x in six])
+    yield "hash-rrggbb-is-its-own-value", implies(rrggbb, both(neg(none), rv == digits_value(six, 16)))
+    d = [cs_at(s, i) for i in (1, 2, 3)]
+    cube = both(n == 4, c0 == HASH, *[is_hex(x) for x in d])
+    idx = [T(p.lookup16, digit_val(x, 16)) for x in d]
+    yield "hash-rgb-takes-the-xterm-rgb-of-its-256-colour-cube-entry", implies(cube, both(neg(none), rv == rgb(cube_number(p, *idx))))
+    yield "hash-without-three-or-six-hex-digits-is-rejected", implies(both(n >= 1, c0 == HASH, neg(cube), neg(rrggbb)), none)
+    yield "longer-than-four-characters-without-hash-is-rejected", implies(both(n > 4, c0 != HASH), none)
+    hwf, hv = digits_at(s, 1, 10, 3)
+    yield "hN-takes-the-xterm-rgb-of-colour-number-N", implies(both(n <= 4, c0 == H, hwf), ite(hv < 256, both(neg(none), rv == rgb(imin(hv, 255))), none))
+    xwf, xv = digits_at(s, 2, 16, 2)
+    ghex = both(n <= 4, n >= 2, c0 == G, cs_at(s, 1) == HASH, xwf)
+    yield "g-hash-XX-takes-the-xterm-rgb-of-the-nearest-gray", implies(ghex, both(neg(none), rv == rgb(gray_number(p, T(p.gray_lookup, xv)))))
+    gwf, gv = digits_at(s, 1, 10, 3)
+    gdec = both(n <= 4, c0 == G, gwf)
+    yield "gN-takes-the-xterm-rgb-of-the-nearest-gray", implies(both(gdec, gv <= 100), both(neg(none), rv == rgb(gray_number(p, T(p.gray_lookup101, imin(gv, 100))))))
+    yield "more-than-100-percent-is-rejected", implies(both(gdec, gv > 100), none)
+
+
+@contract(DC + "_parse_color_true", property="C18", replayable=False)
+class parse_color_true:
+    params = dict(desc=Str())
+    result = Opt(Int)
+    raises = ()
+    setup = staticmethod(tables_setup)
+    fstring = staticmethod(cstr_fstring)
+
+    def ensures(a, result):
+        yield from parse_true_clauses(a.desc, result)
+
+
+def true_to_256_clauses(s, result):
+    n = cs_len(s)
+    six = [cs_at(s, i) for i in range(1, 7)]
+    rrggbb = both(n == 7, cs_at(s, 0) == HASH, *[is_hex(x) for x in six])
+    rnone = result is None or (opt_isnone(result) if isinstance(result, V.SOpt) else False)
+    rs = val(result) if result is not None else CStr.of("")
+    yield "none-unless-hash-and-six-hex-digits", implies(neg(rrggbb), rnone)
+    p = P256
+    steps = [T(p.steps16, T(p.lookup16, digit_val(x, 16))) for x in (six[0], six[2], six[4])]
+    want = CStr.codes([HASH] + [digit_char(v) for v in steps])
+    yield "hash-rrggbb-becomes-the-description-of-the-cube-colour-nearest-to-its-high-digits", implies(rrggbb, both(neg(rnone), cs_eq(rs, want, 4)))
+
+
+@contract(DC + "_true_to_256", property="C18", replayable=False)
+class true_to_256:
+    params = dict(desc=Str())
+    result = Opt(Str(4))
+    raises = ()
+    setup = staticmethod(tables_setup)
+    fstring = staticmethod(cstr_fstring)
+    call_real = staticmethod(cstr_call_real)
+
+    def ensures(a, result):
+        yield from true_to_256_clauses(a.desc, result)
